@@ -1595,7 +1595,10 @@ func (b *Bitmap) unmarshalPilosaRoaring(data []byte) error {
 
 	// Read key count in bytes sizeof(cookie)+sizeof(flag):(sizeof(cookie)+sizeof(uint32)).
 	keyN := binary.LittleEndian.Uint32(data[3+1 : 8])
-	if uint32(len(data)) < headerBaseSize+keyN*12 {
+	// Each container has 12 bytes of key/type/cardinality and a 4 byte offset.
+	// (Computed in 64 bits: keyN comes from the input and keyN*12 can wrap.)
+	dataStart := uint64(headerBaseSize) + uint64(keyN)*(12+4)
+	if uint64(len(data)) < dataStart {
 		return fmt.Errorf("malformed bitmap, key-cardinality not provided for %d containers", int(keyN)/12)
 	}
 
@@ -1603,9 +1606,13 @@ func (b *Bitmap) unmarshalPilosaRoaring(data []byte) error {
 	b.Containers.ResetN(int(keyN))
 	// Descriptive header section: Read container keys and cardinalities.
 	for i, buf := 0, data[headerSize:]; i < int(keyN); i, buf = i+1, buf[12:] {
+		typ := binary.LittleEndian.Uint16(buf[8:10])
+		if typ != uint16(containerArray) && typ != uint16(containerBitmap) && typ != uint16(containerRun) {
+			return fmt.Errorf("malformed bitmap, container %d has unknown type %d", i, typ)
+		}
 		b.Containers.PutContainerValues(
 			binary.LittleEndian.Uint64(buf[0:8]),
-			byte(binary.LittleEndian.Uint16(buf[8:10])),
+			byte(typ),
 			int(binary.LittleEndian.Uint16(buf[10:12]))+1,
 			true)
 	}
@@ -1616,16 +1623,37 @@ func (b *Bitmap) unmarshalPilosaRoaring(data []byte) error {
 	for i, buf := 0, data[opsOffset:]; i < int(keyN); i, buf = i+1, buf[4:] {
 		offset := binary.LittleEndian.Uint32(buf[0:4])
 		// Verify the offset is within the bounds of the input data.
-		if int(offset) >= len(data) {
+		if int(offset) >= len(data) || uint64(offset) < dataStart {
 			return fmt.Errorf("offset out of bounds: off=%d, len=%d", offset, len(data))
 		}
 
 		// Map byte slice directly to the container data.
-		citer.Next()
+		if !citer.Next() {
+			return fmt.Errorf("malformed bitmap, %d containers announced but keys repeat", keyN)
+		}
 		_, c := citer.Value()
 		// this shouldn't happen, since we don't normally store nils.
 		if c == nil {
 			continue
+		}
+		// Verify the container's data lies within the input as well.
+		size := 0
+		switch c.typ() {
+		case containerRun:
+			if int(offset)+runCountHeaderSize > len(data) {
+				return fmt.Errorf("run count out of bounds: off=%d, len=%d", offset, len(data))
+			}
+			size = runCountHeaderSize + int(binary.LittleEndian.Uint16(data[offset:offset+runCountHeaderSize]))*interval16Size
+			if size == runCountHeaderSize {
+				return fmt.Errorf("malformed bitmap, run container without runs at off=%d", offset)
+			}
+		case containerArray:
+			size = int(c.N()) * 2
+		case containerBitmap:
+			size = bitmapN * 8
+		}
+		if int(offset)+size > len(data) {
+			return fmt.Errorf("container data out of bounds: off=%d, size=%d, len=%d", offset, size, len(data))
 		}
 		switch c.typ() {
 		case containerRun:
